@@ -126,23 +126,46 @@ Theorem c04_repair_correct : forall s T,
 Proof. exact repair_correct. Qed.
 Print Assumptions c04_repair_correct.
 
-(* c04_inc_refines_add_partial (a + b): add_entities(ComputeNow), any batch, any store with Inv.
-   If the map edit fails (duplicate) both layers fail with the same error; if the edited parent graph is
-   acyclic both layers succeed with equal direct parents and equal ancestor sets (the touched set computed
-   by the code — the added uids plus every entity with a touched ancestor — leaves only complete entities
-   untouched).  MISSING for the full refinement: when the edited graph has a cycle the spec layer rejects
-   (c04_spec_op_cycle_rejected) but that the coded DFS + self-loop test on touched nodes also rejects is
-   not proved (correspondence only). *)
+(* c04_repair_sound: on ANY parent graph (cyclic included) whatever `repair` accepts keeps the direct
+   parents and lists only ancestors justified by a path; a Cycle error it reports is a real cycle. *)
+Theorem c04_repair_sound : forall s T,
+  Sound (graph_of s) s ->
+  match repair T s with
+  | TOk s' => graph_of s' = graph_of s /\ Sound (graph_of s) s'
+  | TErr ECycle => exists t, In t (keys s) /\ reach (graph_of s) t t
+  | TErr _ => True
+  end.
+Proof. exact repair_sound. Qed.
+Print Assumptions c04_repair_sound.
+
+(* c04_inc_refines_add_partial (a + b + graph-level c): add_entities(ComputeNow), any batch, any store with Inv.
+   * map edit fails (duplicate): both layers fail with the same error;
+   * edited parent graph acyclic: both layers succeed, equal direct parents, equal ancestor sets (the touched
+     set computed by the code — added uids plus every entity with a touched ancestor — leaves only complete
+     entities untouched, and the coded DFS recomputes the touched ones exactly);
+   * the incremental layer reports Cycle: the spec layer reports Cycle (the cycle is real);
+   * every cycle of the edited graph runs through touched entities only (so restricting the self-loop
+     test to touched nodes loses nothing once their closures are right).
+   MISSING for the full refinement: on a CYCLIC edited graph the spec layer rejects
+   (c04_spec_op_cycle_rejected), but that the coded DFS produces a self-loop on some touched node (i.e. that
+   the incremental layer cannot answer Ok or run out of fuel there) is not proved — correspondence only. *)
 Theorem c04_inc_refines_add_partial : forall s es,
   Inv s ->
   match insert_all s es with
   | TErr e => i_add true s es = TErr e /\ s_compute s (OAdd true es) = TErr e
-  | TOk s1 => acyclic (graph_of s1) ->
-              exists si ss, i_add true s es = TOk si /\ s_compute s (OAdd true es) = TOk ss /\ agree si ss
+  | TOk s1 =>
+      (acyclic (graph_of s1) ->
+       exists si ss, i_add true s es = TOk si /\ s_compute s (OAdd true es) = TOk ss /\ agree si ss)
+      /\ (i_add true s es = TErr ECycle -> s_compute s (OAdd true es) = TErr ECycle)
+      /\ (forall t, i_add_loop s [] es = TOk (s1, t) ->
+          forall x, reach (graph_of s1) x x -> In x (touch_descendants t s1))
   end.
 Proof.
   intros s es HI. destruct (insert_all s es) as [s1|e] eqn:E.
-  - intros Hacy. eapply inc_refines_add; eassumption.
+  - split; [|split].
+    + intros Hacy. eapply inc_refines_add; eassumption.
+    + intros H. eapply inc_add_cycle; eassumption.
+    + intros t EL. eapply add_cycles_touched; eassumption.
   - apply inc_add_error; exact E.
 Qed.
 Print Assumptions c04_inc_refines_add_partial.
